@@ -17,6 +17,7 @@ package api
 
 import (
 	"bytes"
+	"errors"
 	"fmt"
 	"math/rand"
 	"net/http"
@@ -192,7 +193,7 @@ func c02GenLate(r *rand.Rand) *c02Script {
 func c02GenLatePanic(r *rand.Rand) *c02Script {
 	sc := c02GenLate(r)
 	b := sc.index("block")
-	sc.Steps = c02Insert(r, sc.Steps, c02Step{Op: "panic"}, b+1)
+	sc.Steps = c02Insert(r, sc.Steps, c02RandPanic(r), b+1)
 	sc.Kind = "latepanic"
 	return sc
 }
@@ -204,8 +205,68 @@ func c02GenCancel(r *rand.Rand) *c02Script {
 	return sc
 }
 
+// c02PanicKinds is the alphabet of panic values of the scripted handlers: every
+// one of them is a legal thing for a handler to die with, and the chain owes the
+// client the same answer for all of them.
+var c02PanicKinds = []string{"string", "error", "custom", "typednil", "int", "nilmap", "index", "nilderef", "abort", "wrapabort"}
+
+type c02Custom struct{ Why string }
+
+func (c *c02Custom) Error() string { return "c02 custom panic value" }
+
+// c02DoPanic panics with a value of the given kind (runtime errors are provoked
+// for real).
+func c02DoPanic(kind, id string) {
+	switch kind {
+	case "error":
+		panic(errors.New("c02 scripted panic (error) in run " + id))
+	case "custom":
+		panic(c02Custom{Why: "c02 scripted panic (struct) in run " + id})
+	case "typednil":
+		var p *c02Custom
+		panic(p) // non-nil interface holding a nil pointer
+	case "int":
+		panic(42)
+	case "nilmap":
+		var mp map[string]int
+		mp[id] = 1
+	case "index":
+		var sl []int
+		_ = sl[len(id)]
+	case "nilderef":
+		var p *c02Custom
+		_ = p.Why
+	case "abort":
+		panic(http.ErrAbortHandler)
+	case "wrapabort":
+		panic(fmt.Errorf("c02 copy failed in run %s: %w", id, http.ErrAbortHandler))
+	}
+	panic("c02 scripted panic in run " + id)
+}
+
+func c02RandPanic(r *rand.Rand) c02Step {
+	return c02Step{Op: "panic", V: c02PanicKinds[r.Intn(len(c02PanicKinds))]}
+}
+
 func c02GenPanic(r *rand.Rand, committed bool) *c02Script {
+	mode := "committed"
+	if !committed {
+		mode = []string{"first", "hdrs", "any"}[r.Intn(3)]
+	}
+	return c02GenPanicAt(r, mode, c02RandPanic(r).V)
+}
+
+// c02GenPanicAt: panic with a value of the given kind
+//
+//	first      as the very first thing the handler does
+//	hdrs       after setting headers only (nothing committed)
+//	any        anywhere before the first status/write
+//	committed  after a status and/or a partial body
+func c02GenPanicAt(r *rand.Rand, mode, kind string) *c02Script {
 	st := c02GenResponseSteps(r, false)
+	if mode == "hdrs" && (len(st) == 0 || st[0].Op != "hdr") {
+		st = append([]c02Step{{Op: "hdr", K: "X-C02-H9", V: fmt.Sprintf("v9-%d", r.Intn(1000))}}, st...)
+	}
 	first := len(st)
 	for i, s := range st {
 		if s.Op == "status" || s.Op == "write" {
@@ -213,16 +274,23 @@ func c02GenPanic(r *rand.Rand, committed bool) *c02Script {
 			break
 		}
 	}
-	if committed {
+	pn := c02Step{Op: "panic", V: kind}
+	if mode == "committed" {
 		if first == len(st) {
 			st = append(st, c02Step{Op: "write", N: 1 + r.Intn(50)})
 		}
-		st = c02Insert(r, st, c02Step{Op: "panic"}, first+1)
+		st = c02Insert(r, st, pn, first+1)
 		return &c02Script{Kind: "panic-committed", Steps: st}
 	}
-	p := r.Intn(first + 1)
+	p := 0
+	switch mode {
+	case "hdrs":
+		p = first
+	case "any":
+		p = r.Intn(first + 1)
+	}
 	out := append([]c02Step{}, st[:p]...)
-	out = append(out, c02Step{Op: "panic"})
+	out = append(out, pn)
 	out = append(out, st[p:]...)
 	return &c02Script{Kind: "panic", Steps: out}
 }
@@ -406,7 +474,7 @@ func (run *c02Run) exec(w http.ResponseWriter, r *http.Request) {
 		case "panic":
 			s := vk.Seq()
 			run.add(c02Ev{Step: i, Op: "panic", Before: s, After: s})
-			panic("c02 scripted panic in run " + run.id)
+			c02DoPanic(st.V, run.id)
 		case "sleep":
 			time.Sleep(time.Duration(st.N) * time.Microsecond)
 		case "yield":
